@@ -178,6 +178,11 @@ def run_impl(case):
             params.append(ParameterValues(key=k2, values=list(case["levels2"])))
         obs = Observation(parameters=params, readout=Readout(times=times), mode="product", with_dask=(mode == "parallel"))
         pipe = build_pipeline(case)
+        if mode == "parallel" and case.get("writer"):
+            from pyxel.pipelines import ModelFunction
+
+            # all buckets filled (float photon / charge / pixel / signal, uint32 image) before the probes run
+            pipe = _with_writer(case, ModelFunction(func="probes.cal_probe", name="writer", arguments={"a": 1.0, "b": 0.0}))
         if mode == "sequential":
             try:
                 res = pyxel.run_mode(obs, det, pipe)
@@ -200,6 +205,21 @@ def run_impl(case):
                 try:
                     loaded = res.load()
                     out["load"] = {"ok": type(loaded).__name__}
+                    if case["fault"]:
+                        try:
+                            import numpy as np
+
+                            summ = []
+                            for b in ("photon", "pixel", "image"):
+                                try:
+                                    a = np.asarray(loaded[f"/bucket/{b}"].values, dtype=float)
+                                except KeyError:
+                                    continue
+                                if a.size:
+                                    summ.append(f"{b}: {int(np.isnan(a).sum())} NaN, {int((a == 0).sum())} zeros of {a.size}")
+                            out["load_summary"] = "; returned " + ", ".join(summ)
+                        except Exception:  # noqa: BLE001
+                            pass
                 except Exception as e:  # noqa: BLE001
                     out["load"] = {"err": exc_record(e)}
                     # nothing readable afterwards: a second attempt must fail as well (no cached zeros)
@@ -347,7 +367,8 @@ def property_predicate(case, impl):
             why = check_exc(case, impl["build"]["err"], need_type=True, where="at construction: ")
             return ("C09:identity-lost", why) if why else None
         if "ok" in impl["load"]:
-            return ("C09:fault-swallowed", f"model {f['id']} raised {f['exc']} in run {f['run']} but .load() returned data")
+            return ("C09:fault-swallowed", f"model {f['id']} raised {f['exc']} in run {f['run']} of a parallel observation but .load() returned a "
+                                           f"{impl['load']['ok']} (whatever it holds, it is not the data of the failed run){impl.get('load_summary', '')}")
         why = check_exc(case, impl["load"]["err"], need_type=True, where="at .load(): ")
         if why:
             return ("C09:identity-lost", why)
@@ -362,6 +383,11 @@ def property_predicate(case, impl):
             return ("C09:fault-swallowed", f"model {f['id']} raised {f['exc']} at evaluation call {f['nth']} but calibration returned a result")
         initial = f["nth"] <= case["algo"]["population_size"]
         why = check_exc(case, res["err"], need_type=initial, where=("initial population: " if initial else "evolution: "))
+        if why and f["exc"] == "StopIteration" and res["err"].get("kind") == "RuntimeError" \
+                and res["err"].get("msg") == "generator raised StopIteration" and res["err"].get("cause") == "StopIteration":
+            # PEP 479: the islands are created inside `for island in tqdm(executor.map(...))`; a StopIteration leaving
+            # executor.map's iterator inside tqdm's generator frame is converted to RuntimeError (original kept as __cause__)
+            return ("C09:identity-lost:calibration:StopIteration-converted-by-generator", why)
         return ("C09:identity-lost", why) if why else None
     return None
 
@@ -421,6 +447,20 @@ def body(ck: common.Check):
             if c["fault"]:
                 c["fault"]["exc"] = name
             cases.append(("classes", c))
+    # parallel path, every class at a run inside the dask graph (k >= 1) and at the eagerly executed first
+    # combination (k = 0), with float and integer buckets filled by a writer model in half of the cases: a handler
+    # around the task that answers some exception classes with placeholder data must show up for each class
+    for n, name in enumerate(EXCS):
+        for first in (False, True):
+            c = gen_case(rng, "parallel", nruns=3, two=False)
+            for _ in range(50):
+                if c["fault"] and (c["fault"]["run"] == 0) == first:
+                    break
+                c = gen_case(rng, "parallel", nruns=3, two=False)
+            if c["fault"]:
+                c["fault"]["exc"] = name
+            c["writer"] = (n % 2 == 0) != first
+            cases.append(("parallel-classes", c))
     lean_cases = [(st, c) for st, c in cases]
     answers = LeanDriver("C09").batch([lean_request(c) for _, c in lean_cases])
     for (stream, case), ans in zip(lean_cases, answers):
@@ -469,7 +509,7 @@ def body(ck: common.Check):
         if pv:
             ck.violation(pv[0], pv[1], {"case": c, "impl": impl})
     ck.rule = ("pipelines of 1-3 groups x 1-3 models (some disabled), 1-3 readout steps; exposure, sequential observation over 2-3 values "
-               "(x 2 values of a second parameter), parallel observation (threads), calibration (sade / sga / nlopt; fault at an evaluation of the "
+               "(x 2 values of a second parameter), parallel observation (threads; every class at a run inside the dask graph and at the eager first run, with and without float/integer buckets written), calibration (sade / sga / nlopt; fault at an evaluation of the "
                f"initial population or of an evolution); {len(EXCS)} exception classes (incl. StopIteration, warnings, MemoryError), odd constructors / custom __str__, messages with newlines, "
                "unicode, empty; a fault at EVERY (run, step, position) of small pipelines + random positions + fault-free runs; "
                "non-trivial = a fault is injected")
